@@ -67,6 +67,11 @@ fn evaluate_isolated(case: &Case, reg: &[c11::Entry]) -> Outcome {
         if pid == 0 {
             libc::close(fds[0]);
             libc::alarm(20);
+            // whatever the child prints when it dies (abort message, backtrace) must never block on a full pipe
+            let devnull = libc::open(b"/dev/null\0".as_ptr() as *const libc::c_char, libc::O_WRONLY);
+            if devnull >= 0 {
+                libc::dup2(devnull, 2);
+            }
             let o = evaluate(case, reg);
             let text = format!("{}\n{}", o.class.unwrap_or_default(), o.detail);
             let b = text.as_bytes();
@@ -302,6 +307,7 @@ struct Summary {
     failed_ops: u64,
     reservation_writes: u64,
     alloc_faults_delivered: u64,
+    aborted_on_injected_allocation_failure: u64,
     grows: u64,
     finite_total: u64,
     finite_done: u64,
@@ -416,6 +422,26 @@ fn worker(args: &[String]) -> i32 {
                         *s.by_fault_kind.entry(kind).or_default() += 1;
                     }
                     *s.by_type.entry(c.ty.clone()).or_default() += 1;
+                    let mut continue_after_isolated = false;
+                    if c.alloc_fail_nth > 0 {
+                        // An injected allocation failure is only survivable where the code allocates fallibly. A
+                        // decoder that grows its collections with ordinary (infallible) pushes aborts, as any Rust
+                        // program does when the allocator says no; the statement does not promise otherwise. Such
+                        // cases run in a forked child: an abort there is counted, not judged; everything else is.
+                        let o = evaluate_isolated(case, &reg);
+                        match o.class.as_deref() {
+                            None => {
+                                s.alloc_faults_delivered += 1;
+                                *s.by_ref_class.entry("(isolated allocation-fault case)".to_owned()).or_default() += 1;
+                            }
+                            Some("crash-signal-6") => {
+                                s.aborted_on_injected_allocation_failure += 1;
+                            }
+                            Some(cl) => violation = Some((cl.to_owned(), o.detail.clone())),
+                        }
+                        continue_after_isolated = true;
+                    }
+                    if !continue_after_isolated {
                     match c11::check(entry, &bytes, c.alloc_fail_nth) {
                         Ok(st) => {
                             if st.real_ok {
@@ -433,6 +459,7 @@ fn worker(args: &[String]) -> i32 {
                             }
                         }
                         Err(v) => violation = Some((v.class, v.detail)),
+                    }
                     }
                 }
             }
